@@ -37,7 +37,10 @@ BuilderSound(c) ==
         LET m == Expand(c.defs, <<>>) IN
         c.uses[i].name \in DOMAIN m /\ m[c.uses[i].name] = c.uses[i].toks
 
+\* c.dupcase: the builder spelled one case value twice, once through a constant; the
+\* written-out program then has a literal duplicate, and both must be rejected alike
 Holds(c) == IF Redefines(c.defs) THEN c.err1
+            ELSE IF c.dupcase THEN c.err1 /\ c.err2
             ELSE ~c.err1 /\ ~c.err2 /\ c.out1 = c.out2
 
 Init == ci \in 1..Len(Cases)
